@@ -486,7 +486,10 @@ def build_source(sd, i):
             sl = np.array(rng.permutation(nb)[:n])
         bv[sl] = v
         base = Signal(f"base{i}", bv)
-        sig = base[sl]
+        if int(sd["seed"]) % 2 == 0:      # the same entries through a slice of a slice (seeded change C19-7)
+            sig = base[start:][slice(0, step * (n - 1) + 1, step)] if form == "slb" else base[0:nb][sl]
+        else:
+            sig = base[sl]
         return dict(sig=sig, base=base, form=form, shape=shape, n=n, cplx=cplx, val=v.astype(complex), order=order,
                     sparse=False, src=True, producer=None, consumers=[], name=f"x{i}")
     sig = Signal(f"x{i}", st)
